@@ -222,9 +222,12 @@ func c06R1(c *Ctx) {
 	lit := false
 	cmpSet := map[int64]bool{}
 	eachInstr(ars, func(in ssa.Instruction) {
-		if cv, ok := in.(*ssa.Convert); ok {
-			if s, ok := constString(cv.X); ok && s == "#R" {
-				lit = true
+		var rands []*ssa.Value
+		for _, r := range in.Operands(rands) {
+			if *r != nil {
+				if s, ok := constString(*r); ok && s == "#R" {
+					lit = true // []byte("#R") or WriteString("#R"), literal or named constant
+				}
 			}
 		}
 		if b, ok := in.(*ssa.BinOp); ok {
@@ -682,7 +685,8 @@ func c06Dispatch(c *Ctx) {
 				good = false
 			}
 			if w.dirArg >= 0 {
-				b, isC := constBool(ci.Common().Args[2])
+				// the constant, or `mode == 'D'` evaluated for this letter (the R and D cases merged)
+				b, isC := evalBoolUnder(ci.Common().Args[2], as, reach, 0)
 				if !isC || b != (w.dirArg == 1) {
 					good = false
 				}
